@@ -191,6 +191,9 @@ class BaseGradientApproximator(metaclass=ABCGoogleDocstringInheritanceMeta):
 
         if not x_indices:
             x_indices = range(n_dim)
+        elif isinstance(step, ndarray) and step.size == n_dim:
+            # One step by input component: keep the steps of the components of interest.
+            step = step[list(x_indices)]
 
         return self._generate_perturbations(x_vect, x_indices, step)
 
